@@ -53,6 +53,7 @@ type c20result struct {
 	decs    int
 	outs    int
 	maxPend int
+	hits    map[string]int
 }
 
 func fmtOuts(out []c20out) string {
@@ -77,6 +78,7 @@ func c20run(cs *c20case, next func(r *rig) []c20ev) (res c20result, err error) {
 	}
 	defer r.close()
 	res.newLine = fmt.Sprintf("new %d %d %d 0", cs.Delay, r.cap, pushpull.VerifMaxPendingPushes)
+	res.hits = map[string]int{}
 	or := newOracle(cs.Delay, r.cap, pushpull.VerifMaxPendingPushes)
 	setFail := func(f *c20fail) {
 		if f != nil && res.fail == nil {
@@ -111,7 +113,20 @@ func c20run(cs *c20case, next func(r *rig) []c20ev) (res c20result, err error) {
 			res.maxPend = n
 		}
 		if !cs.Light {
-			setFail(or.observe(i, e, out, before, r.snap(), r))
+			after := r.snap()
+			setFail(or.observe(i, e, out, before, after, r))
+			switch {
+			case e.K == "gc" && len(after.Active) < len(before.Active):
+				res.hits["gc:expired-a-pull"]++
+			case e.K == "ann" && len(out) == 0 && len(after.Pending) == len(before.Pending) && !r.holder.Has(hashOf(e.H)):
+				res.hits["ann:dropped(no active pull)"]++
+			case e.K == "ann" && len(out) == 0 && len(before.Pending) > 0 && len(after.Pending) > len(before.Pending) && after.Pending[0] != before.Pending[0]:
+				res.hits["ann:queued-in-front"]++
+			case e.K == "loop" && len(out) == 0 && len(after.Pending) < len(before.Pending):
+				res.hits["loop:dropped(stored or no active pull)"]++
+			case e.K == "dlv" && len(out) == 1 && r.holder.Has(hashOf(out[0].H)):
+				res.hits["dlv:relay-after-arrival"]++
+			}
 		} else if n > pushpull.VerifMaxPendingPushes+1 {
 			setFail(&c20fail{"C20:pending-unbounded", fmt.Sprintf("event %d: %d pending pushes > maxPendingPushes+1", i, n)})
 		}
@@ -122,7 +137,15 @@ func c20run(cs *c20case, next func(r *rig) []c20ev) (res c20result, err error) {
 	}
 	for i := 0; i < len(cs.Ev); i++ {
 		e := cs.Ev[i]
-		if e.K == "drain" {
+		if e.K == "fill" { // T announcements of hash H by peers P, P+1, …
+			ok := true
+			for k := int64(0); k < e.T && ok; k++ {
+				ok = do(i, c20ev{K: "ann", P: e.P + int(k), H: e.H})
+			}
+			if !ok {
+				break
+			}
+		} else if e.K == "drain" {
 			rounds := 3*r.tracker.VerifPendingLen() + 3*len(r.fifo) + 8
 			for r.tracker.VerifPendingLen() > 0 || len(r.fifo) > 0 {
 				if rounds--; rounds < 0 {
@@ -163,11 +186,16 @@ func c20wakes() (loop, gc int64) {
 }
 
 func c20shrink(cs c20case, sig string) c20case {
+	budget := 400000 // events executed while shrinking
 	fails := func(c c20case) bool {
+		if budget <= 0 {
+			return false
+		}
 		res, err := c20run(&c, nil)
+		budget -= len(res.lines) + 50
 		return err == nil && res.fail != nil && res.fail.Sig == sig
 	}
-	for changed := true; changed; {
+	for changed := true; changed && budget > 0; {
 		changed = false
 		for chunk := len(cs.Ev) / 2; chunk >= 1; chunk /= 2 {
 			for i := 0; i+chunk <= len(cs.Ev); {
@@ -178,6 +206,16 @@ func c20shrink(cs c20case, sig string) c20case {
 				} else {
 					i += chunk
 				}
+			}
+		}
+		for i := range cs.Ev { // shorten fills
+			for cs.Ev[i].K == "fill" && cs.Ev[i].T > 1 {
+				t := c20case{Delay: cs.Delay, Cap: cs.Cap, Light: cs.Light, Ev: append([]c20ev{}, cs.Ev...)}
+				t.Ev[i].T = cs.Ev[i].T - (cs.Ev[i].T+9)/10
+				if !fails(t) {
+					break
+				}
+				cs, changed = t, true
 			}
 		}
 	}
@@ -193,6 +231,11 @@ func c20emit(c *hx.Ctx, cs c20case, res c20result) {
 			if strings.Contains(l[1], k) {
 				c.Hit("out:" + k[:3])
 			}
+		}
+	}
+	for k, n := range res.hits {
+		for ; n > 0; n-- {
+			c.Hit(k)
 		}
 	}
 	if res.fail != nil {
@@ -315,11 +358,9 @@ func c20generate(c *hx.Ctx, maxEv int) (c20case, c20result, error) {
 // c20bound: more announcers than maxPendingPushes for one hash; the pending list must stop growing.
 func c20bound() c20case {
 	cs := c20case{Delay: 10000, Cap: 1, Light: true}
-	cs.Ev = append(cs.Ev, c20ev{K: "ann", P: 1, H: 1}, c20ev{K: "ann", P: 1, H: 2}, c20ev{K: "tick", T: 5})
-	for p := 2; p < pushpull.VerifMaxPendingPushes+6; p++ {
-		cs.Ev = append(cs.Ev, c20ev{K: "ann", P: p, H: 1})
-	}
-	cs.Ev = append(cs.Ev, c20ev{K: "ann", P: 2, H: 2}, c20ev{K: "tick", T: 9}, c20ev{K: "loop"}, c20ev{K: "tick", T: 10}, c20ev{K: "loop"})
+	cs.Ev = []c20ev{{K: "ann", P: 1, H: 1}, {K: "ann", P: 1, H: 2}, {K: "tick", T: 5},
+		{K: "fill", P: 2, H: 1, T: int64(pushpull.VerifMaxPendingPushes) + 4},
+		{K: "ann", P: 2, H: 2}, {K: "tick", T: 9}, {K: "loop"}, {K: "tick", T: 10}, {K: "loop"}}
 	return cs
 }
 
@@ -344,7 +385,7 @@ func init() {
 			c.Rep.Evaluations = 1
 			return nil
 		}
-		n, maxEv := c.Scale(1500, 60000), 90
+		n, maxEv := c.Scale(1500, 100000), 90
 		if c.Tier == "thorough" {
 			maxEv = 160
 		}
@@ -390,6 +431,9 @@ func init() {
 		c.Hit(fmt.Sprintf("bound:maxPending=%d", res.maxPend))
 		if res.maxPend != pushpull.VerifMaxPendingPushes+1 {
 			c.Fail("C20:bound-not-reached", fmt.Sprintf("overfill trace reached %d pending pushes, expected maxPendingPushes+1", res.maxPend), nil)
+		}
+		if c.Tier == "thorough" {
+			c20observe(c, 3)
 		}
 		return nil
 	})
